@@ -16,6 +16,16 @@ from .base import PEP8_LLEN, Box, Leaf, Model, Rule
 from .math import ffset, kdot, ref
 
 
+def _contains_cut(exp: Model) -> bool:
+    # NOTE: an optional or closure that saw a cut raises when its body then
+    #   fails; an optional around it is what absorbs that failure
+    from .basic import Cut
+
+    if isinstance(exp, Cut):
+        return True
+    return any(_contains_cut(c) for c in exp.children() if isinstance(c, Model))
+
+
 @nodedataclass
 class Group(Box):
     def _parse(self, ctx: Ctx) -> Any:
@@ -121,9 +131,11 @@ class Optional(Box):
         from .closure import Closure, Gather, Join
 
         exp = self.exp.optimized()
-        if isinstance(
-            exp, Optional | Closure | Join | Gather
-        ) and 'Positive' not in typename(exp):
+        if (
+            isinstance(exp, Optional | Closure | Join | Gather)
+            and 'Positive' not in typename(exp)
+            and not _contains_cut(exp)
+        ):
             return exp
         new = copy(self)
         new.exp = exp
